@@ -66,7 +66,7 @@ def _case(draw):
     if draw(st.integers(0, 2)) == 0:
         hist = {"initial": draw(st.integers(0, n)), "pre_vote": draw(st.booleans()), "pre_stats": draw(st.booleans()), "extra": draw(st.booleans()),
                 "weights_late": draw(st.booleans()), "detour": None if emergency else draw(st.sampled_from([None, None, 0, 2, 6]))}
-    return {"emergency": emergency, "strategy": strat, "threshold": thr, "min_voters": mv, "voters": voters, "hist": hist}
+    return {"emergency": emergency, "strategy": strat, "threshold": thr, "min_voters": mv, "voters": voters, "hist": hist, "exc": draw(st.integers(0, 11))}
 
 
 def strategy(tier):
@@ -97,6 +97,8 @@ def enumerate_cases(tier):
 
 
 class _Stub:
+    exc = 0      # index into _exc.EXC_TYPES, set per case
+
     def __init__(self, name, kind, conf):
         self.name = name
         self.kind = kind
@@ -105,7 +107,8 @@ class _Stub:
     def express(self, signal):
         from operon_ai.core.types import ActionProtein
         if self.kind == "RAISE":
-            raise RuntimeError("voter crashed")
+            from pbt.props._exc import make
+            raise make(_Stub.exc, "voter crashed")
         return ActionProtein(self.kind, {"confidence": self.conf}, self.conf)
 
 
@@ -166,6 +169,7 @@ def _ratio(num, den):
 def judge(case):
     from operon_ai.topology.quorum import VoteType
     out = Outcome()
+    _Stub.exc = case.get("exc", 0)
     voters = case["voters"]
     n = len(voters)
     strat = STRATS[case["strategy"]]
